@@ -370,7 +370,13 @@ def read_plan(planned):
     if isinstance(s.imports_info, str) and fs.has(s.imports_info):
       import types
       builder = m["iml"].ImportsMapBuilder(types.SimpleNamespace(open_function=fs.open))
-      im = builder.build_from_file(s.imports_info)
+      try:
+        im = builder.build_from_file(s.imports_info)
+      except Exception as ex:  # pylint: disable=broad-except
+        # pytype-single could not read the imports file the planner wrote for
+        # this step either: the plan is broken, not the harness
+        raise StepUnparseable(e, argv, "its imports file %r is unreadable: %s: %s" % (
+            s.imports_info, type(ex).__name__, ex))
       if im is not None:
         vals = [v for v in im.items.values() if v != os.devnull]
         s.imports_items = dict(im.items)
